@@ -1,5 +1,6 @@
 //! C06 — era ledger codecs: isomorphic on chain data, round-trip on generated values (DESIGN §C06).
 use crate::gen::G;
+use crate::placement;
 use crate::util::{diff_signature, tree_diffs, Arena};
 use pallas_codec::minicbor;
 use pallas_codec::utils::{KeepRaw, Nullable};
@@ -215,12 +216,21 @@ fn walk_conway_output(o: &conway::TransactionOutput<'_>, p: &mut Parts) -> Resul
     Ok(())
 }
 
-fn walk_alonzo_body(b: &KeepRaw<'_, alonzo::TransactionBody>, p: &mut Parts) -> Result<(), Fail> {
+/// `native` = the codec is the one of the artefact's own era (only then must the decoded fields agree
+/// with an independent reading of the bytes: a later era's codec legitimately does not know e.g. the
+/// certificate kinds of an earlier era and maps the whole optional field to None)
+fn walk_alonzo_body(b: &KeepRaw<'_, alonzo::TransactionBody>, p: &mut Parts, native: bool) -> Result<(), Fail> {
     inner_rt!("alonzo::TransactionBody", alonzo::TransactionBody, b, p, eq);
-    Ok(())
+    if !native {
+        return Ok(());
+    }
+    placement::alonzo_body(b.raw_cbor(), b)
 }
-fn walk_babbage_body(b: &KeepRaw<'_, babbage::TransactionBody<'_>>, p: &mut Parts) -> Result<(), Fail> {
+fn walk_babbage_body(b: &KeepRaw<'_, babbage::TransactionBody<'_>>, p: &mut Parts, native: bool) -> Result<(), Fail> {
     inner_rt!("babbage::TransactionBody", babbage::TransactionBody<'_>, b, p, eq);
+    if native {
+        placement::babbage_body(b.raw_cbor(), b)?;
+    }
     for o in b.outputs.iter() {
         inner_rt!("babbage::TransactionOutput", babbage::TransactionOutput<'_>, o, p, eq);
         walk_babbage_output(o, p)?;
@@ -231,8 +241,11 @@ fn walk_babbage_body(b: &KeepRaw<'_, babbage::TransactionBody<'_>>, p: &mut Part
     }
     Ok(())
 }
-fn walk_conway_body(b: &KeepRaw<'_, conway::TransactionBody<'_>>, p: &mut Parts) -> Result<(), Fail> {
+fn walk_conway_body(b: &KeepRaw<'_, conway::TransactionBody<'_>>, p: &mut Parts, native: bool) -> Result<(), Fail> {
     inner_rt!("conway::TransactionBody", conway::TransactionBody<'_>, b, p, eq);
+    if native {
+        placement::conway_body(b.raw_cbor(), b)?;
+    }
     for o in b.outputs.iter() {
         walk_conway_output(o, p)?;
     }
@@ -360,8 +373,9 @@ fn check_block(a: &Art, obs: &mut Obs) -> Result<(), Fail> {
             ntx = b.1.transaction_bodies.len();
             header_iso::<alonzo::Header>("alonzo::Header", b.1.header.raw_cbor())?;
             inner_rt!("alonzo::Header", alonzo::Header, &b.1.header, p, eq);
+            placement::alonzo_header(b.1.header.raw_cbor(), &b.1.header)?;
             for x in b.1.transaction_bodies.iter() {
-                walk_alonzo_body(x, &mut p)?;
+                walk_alonzo_body(x, &mut p, true)?;
             }
             for x in b.1.transaction_witness_sets.iter() {
                 walk_alonzo_wits(x, &mut p)?;
@@ -380,8 +394,9 @@ fn check_block(a: &Art, obs: &mut Obs) -> Result<(), Fail> {
             ntx = b.1.transaction_bodies.len();
             header_iso::<babbage::Header>("babbage::Header", b.1.header.raw_cbor())?;
             inner_rt!("babbage::Header", babbage::Header, &b.1.header, p, eq);
+            placement::babbage_header(b.1.header.raw_cbor(), &b.1.header)?;
             for x in b.1.transaction_bodies.iter() {
-                walk_babbage_body(x, &mut p)?;
+                walk_babbage_body(x, &mut p, true)?;
             }
             for x in b.1.transaction_witness_sets.iter() {
                 walk_babbage_wits(x, &mut p)?;
@@ -400,8 +415,9 @@ fn check_block(a: &Art, obs: &mut Obs) -> Result<(), Fail> {
             ntx = b.1.transaction_bodies.len();
             header_iso::<babbage::Header>("babbage::Header", b.1.header.raw_cbor())?;
             inner_rt!("babbage::Header", babbage::Header, &b.1.header, p, eq);
+            placement::babbage_header(b.1.header.raw_cbor(), &b.1.header)?;
             for x in b.1.transaction_bodies.iter() {
-                walk_conway_body(x, &mut p)?;
+                walk_conway_body(x, &mut p, true)?;
             }
             for x in b.1.transaction_witness_sets.iter() {
                 walk_conway_wits(x, &mut p)?;
@@ -433,13 +449,22 @@ fn check_tx(a: &Art, obs: &mut Obs) -> Result<(), Fail> {
     // conway, babbage, alonzo, byron in this order)
     let mut decoded_by = vec![];
     let mut p = Parts::default();
+    // the artefact's own era, from the file name (unknown for the few files not named after an era)
+    let native = ["byron", "shelley", "allegra", "mary", "alonzo", "babbage", "conway"]
+        .iter()
+        .find(|e| a.name.starts_with(**e))
+        .map(|e| match *e {
+            "shelley" | "allegra" | "mary" => "alonzo",
+            x => x,
+        })
+        .unwrap_or("unknown");
     if let Ok(tx) = minicbor::decode::<conway::Tx>(&a.bytes) {
         decoded_by.push("conway");
         let re = minicbor::to_vec(&tx).map_err(|e| Fail { sig: "encode-error:tx".into(), msg: e.to_string() })?;
         if re != a.bytes {
             return Err(not_iso("tx/conway", &a.name, &a.bytes, &re));
         }
-        walk_conway_body(&tx.transaction_body, &mut p)?;
+        walk_conway_body(&tx.transaction_body, &mut p, native == "conway")?;
         walk_conway_wits(&tx.transaction_witness_set, &mut p)?;
         if let Nullable::Some(x) = &tx.auxiliary_data {
             walk_aux(x, &mut p)?;
@@ -451,7 +476,7 @@ fn check_tx(a: &Art, obs: &mut Obs) -> Result<(), Fail> {
         if re != a.bytes {
             return Err(not_iso("tx/babbage", &a.name, &a.bytes, &re));
         }
-        walk_babbage_body(&tx.transaction_body, &mut p)?;
+        walk_babbage_body(&tx.transaction_body, &mut p, native == "babbage")?;
         walk_babbage_wits(&tx.transaction_witness_set, &mut p)?;
         if let Nullable::Some(x) = &tx.auxiliary_data {
             walk_aux(x, &mut p)?;
@@ -463,7 +488,7 @@ fn check_tx(a: &Art, obs: &mut Obs) -> Result<(), Fail> {
         if re != a.bytes {
             return Err(not_iso("tx/alonzo", &a.name, &a.bytes, &re));
         }
-        walk_alonzo_body(&tx.transaction_body, &mut p)?;
+        walk_alonzo_body(&tx.transaction_body, &mut p, native == "alonzo")?;
         walk_alonzo_wits(&tx.transaction_witness_set, &mut p)?;
         if let Nullable::Some(x) = &tx.auxiliary_data {
             walk_aux(x, &mut p)?;
@@ -667,7 +692,26 @@ fn check_value(c: &ValueCase, obs: &mut Obs) -> Result<(), Fail> {
         "alonzo::CostModels" => rt!(t, alonzo::CostModels, g.alonzo_cost_models(), g, k, eq),
         "babbage::CostModels" => rt!(t, babbage::CostModels, g.babbage_cost_models(), g, k, eq),
         // the only place where cost models of unknown languages (> PlutusV3) are generated
-        "conway::CostModels" => rt!(t, conway::CostModels, g.conway_cost_models(true), g, k, eq),
+        "conway::CostModels" => {
+            let v = g.conway_cost_models(true);
+            // a dedicated signature for the one known way this type fails, so that any other
+            // mismatch of the same type is still reported
+            if !v.unknown.is_empty() {
+                if let Ok(bytes) = minicbor::to_vec(&v) {
+                    if let Ok(back) = minicbor::decode::<conway::CostModels>(&bytes) {
+                        let mut patched = back.clone();
+                        patched.unknown = v.unknown.clone();
+                        if back != v && back.unknown.is_empty() && patched == v {
+                            pv_fail!(
+                                "roundtrip-mismatch:conway::CostModels:unknown-languages-dropped",
+                                "value {:?} encodes to {} which decodes to {:?}", v, short(&bytes), back
+                            );
+                        }
+                    }
+                }
+            }
+            rt!(t, conway::CostModels, v, g, k, eq)
+        }
         "alonzo::Update" => rt!(t, alonzo::Update, g.alonzo_update(), g, k, eq),
         "babbage::Update" => rt!(t, babbage::Update, g.babbage_update(), g, k, eq),
         "alonzo::Redeemer" => rt!(t, alonzo::Redeemer, g.alonzo_redeemer(), g, k, eq),
@@ -679,16 +723,41 @@ fn check_value(c: &ValueCase, obs: &mut Obs) -> Result<(), Fail> {
         "alonzo::TransactionOutput" => rt!(t, alonzo::TransactionOutput, g.alonzo_output(), g, k, eq),
         "babbage::TransactionOutput" => rt!(t, babbage::TransactionOutput<'_>, g.babbage_output(), g, k, eq),
         "conway::TransactionOutput" => rt!(t, conway::TransactionOutput<'_>, g.conway_output(), g, k, eq),
-        "alonzo::TransactionBody" => rt!(t, alonzo::TransactionBody, g.alonzo_body(), g, k, eq),
-        "babbage::TransactionBody" => rt!(t, babbage::TransactionBody<'_>, g.babbage_body(), g, k, eq),
-        "conway::TransactionBody" => rt!(t, conway::TransactionBody<'_>, g.conway_body(), g, k, eq),
+        "alonzo::TransactionBody" => {
+            let v = g.alonzo_body();
+            let bytes = minicbor::to_vec(&v).map_err(|e| Fail { sig: format!("encode-error:{t}"), msg: e.to_string() })?;
+            placement::alonzo_body(&bytes, &v)?;
+            rt!(t, alonzo::TransactionBody, v, g, k, eq)
+        }
+        "babbage::TransactionBody" => {
+            let v = g.babbage_body();
+            let bytes = minicbor::to_vec(&v).map_err(|e| Fail { sig: format!("encode-error:{t}"), msg: e.to_string() })?;
+            placement::babbage_body(&bytes, &v)?;
+            rt!(t, babbage::TransactionBody<'_>, v, g, k, eq)
+        }
+        "conway::TransactionBody" => {
+            let v = g.conway_body();
+            let bytes = minicbor::to_vec(&v).map_err(|e| Fail { sig: format!("encode-error:{t}"), msg: e.to_string() })?;
+            placement::conway_body(&bytes, &v)?;
+            rt!(t, conway::TransactionBody<'_>, v, g, k, eq)
+        }
         "alonzo::WitnessSet" => rt!(t, alonzo::WitnessSet<'_>, g.alonzo_witness_set(), g, k, eq),
         "babbage::WitnessSet" => rt!(t, babbage::WitnessSet<'_>, g.babbage_witness_set(), g, k, eq),
         "conway::WitnessSet" => rt!(t, conway::WitnessSet<'_>, g.conway_witness_set(), g, k, eq),
         "babbage::PostAlonzoAuxiliaryData" => rt!(t, babbage::PostAlonzoAuxiliaryData, g.babbage_post_alonzo_aux(), g, k, eq),
         "conway::PostAlonzoAuxiliaryData" => rt!(t, conway::PostAlonzoAuxiliaryData, g.conway_post_alonzo_aux(), g, k, eq),
-        "alonzo::Header" => rt!(t, alonzo::Header, g.alonzo_header(), g, k, eq),
-        "babbage::Header" => rt!(t, babbage::Header, g.babbage_header(), g, k, eq),
+        "alonzo::Header" => {
+            let v = g.alonzo_header();
+            let bytes = minicbor::to_vec(&v).map_err(|e| Fail { sig: format!("encode-error:{t}"), msg: e.to_string() })?;
+            placement::alonzo_header(&bytes, &v)?;
+            rt!(t, alonzo::Header, v, g, k, eq)
+        }
+        "babbage::Header" => {
+            let v = g.babbage_header();
+            let bytes = minicbor::to_vec(&v).map_err(|e| Fail { sig: format!("encode-error:{t}"), msg: e.to_string() })?;
+            placement::babbage_header(&bytes, &v)?;
+            rt!(t, babbage::Header, v, g, k, eq)
+        }
         "alonzo::Tx" => rt!(t, alonzo::Tx<'_>, g.alonzo_tx(), g, k, dbg),
         "babbage::Tx" => rt!(t, babbage::Tx<'_>, g.babbage_tx(), g, k, dbg),
         "conway::Tx" => rt!(t, conway::Tx<'_>, g.conway_tx(), g, k, eq),
@@ -723,9 +792,23 @@ fn check_value(c: &ValueCase, obs: &mut Obs) -> Result<(), Fail> {
     Ok(())
 }
 
+/// composite types get three times the weight of the small ones
+fn weighted_types() -> Vec<&'static str> {
+    let mut v = vec![];
+    for t in TYPES {
+        let heavy = t.contains("Transaction") || t.contains("WitnessSet") || t.contains("Tx") || t.contains("Block")
+            || t.contains("Certificate") || t.contains("ProtocolParamUpdate") || t.contains("GovAction") || t.contains("Proposal")
+            || t.contains("AuxiliaryData") || t.contains("Metadat") || t.contains("Redeemers") || t.contains("Update");
+        for _ in 0..(if heavy { 3 } else { 1 }) {
+            v.push(t);
+        }
+    }
+    v
+}
+
 fn value_case() -> impl Strategy<Value = ValueCase> {
     (
-        prop::sample::select(TYPES.to_vec()),
+        prop::sample::select(weighted_types()),
         prop_oneof![
             2 => prop::collection::vec(any::<u64>(), 0..40),
             3 => prop::collection::vec(any::<u64>(), 20..250),
@@ -762,23 +845,20 @@ pub fn run(s: &Session) {
         .map(|a| Art { name: a.name, kind: a.kind, bytes: a.bytes })
         .collect();
     let n_test_data = arts.len();
-    // quick: every 4th chunk block (+ all blocks with many transactions are in test_data already);
-    // thorough: all 1777
+    // all 1777 blocks of the immutable-DB chunks in both tiers (a couple of seconds)
     let chunk: Vec<Art> = pvkit::corpus::all_chunk_blocks()
         .into_iter()
-        .enumerate()
-        .filter(|(i, a)| !s.quick() || i % 4 == 0 || a.bytes.len() > 40_000)
-        .map(|(_, a)| Art { name: a.name, kind: a.kind, bytes: a.bytes })
+        .map(|a| Art { name: a.name, kind: a.kind, bytes: a.bytes })
         .collect();
     let n_chunk = chunk.len();
     arts.extend(chunk);
     s.note("artefacts_test_data", serde_json::json!(n_test_data));
     s.note("artefacts_chunk_blocks", serde_json::json!(n_chunk));
-    s.foreach("corpus-isomorphism", arts, !s.quick(), check_artefact);
+    s.foreach("corpus-isomorphism", arts, true, check_artefact);
     s.note("artefacts_not_decoded_by_the_library", serde_json::json!(UNDECODABLE.load(AO::Relaxed)));
     if !s.replaying() {
         s.health(n_test_data >= 90, "fewer than 90 artefacts found in test_data");
-        s.health(n_chunk >= 400, "immutable-DB chunk blocks not found");
+        s.health(n_chunk >= 1700, "immutable-DB chunk blocks not found");
         s.health(
             UNDECODABLE_UNEXPECTED.load(AO::Relaxed) == 0,
             "artefacts other than conway8.block were not decodable (isomorphism could not be judged for them)",
@@ -789,7 +869,7 @@ pub fn run(s: &Session) {
     }
 
     // ---- (b) ----
-    s.forall("generated-values", s.pick(30_000, 600_000), value_case, check_value);
+    s.forall("generated-values", s.pick(300_000, 6_000_000), value_case, check_value);
     if !s.replaying() {
         let mut missing = vec![];
         for t in TYPES {
